@@ -332,6 +332,21 @@ func main() {
 		parseCase("localhost/a:_" + strings.Repeat("-", n-1))
 	}
 
+	// ValidateRegistry on its own: exhaustive over the characters that matter to net/url's
+	// authority parser, plus generated authorities (reg-names, ports, IP literals, zones,
+	// escapes, user-info, query / fragment / path intruders)
+	regLen := run.Scale(4, 5)
+	enumerate([]string{"a", "1", ".", ":", "[", "]", "%", "2", "5", "@", "?", "/", "#", "-", "\xc3", " ", "+", "f"}, regLen, registryCase)
+	run.Extra["registry_exhaustive_length"] = regLen
+	for i := 0; i < run.Scale(30000, 600000); i++ {
+		registryCase(randRegistry(r))
+	}
+	for c := 0; c < 256; c++ {
+		for _, t := range []string{"%s", "a%sb", "a:%s", "[%s]", "[::1%s]", "[::1]%s", "a%s:5"} {
+			registryCase(strings.ReplaceAll(t, "%s", string([]byte{byte(c)})))
+		}
+	}
+
 	// Reference.String() on arbitrary triples (valid and not)
 	for i := 0; i < run.Scale(5000, 100000); i++ {
 		ref := registry.Reference{Registry: common.Pick(r, []string{"localhost:5000", "docker.io", "", "h?q"}),
@@ -488,7 +503,7 @@ func main() {
 // broken run (layer R), not a pass.  The floors are far below what every seed produces.
 func coverageFloors() {
 	floors := map[string]int{
-		"constructed": 20000, "constructed_accept": 5000, "parse_ok": 2000, "parse_judged_accept": 1500, "parse_judged_reject": 50000, "repo_ok": 2000, "repo_err": 5000,
+		"registry": 100000, "registry_ok": 3000, "registry_ok_bracket": 200, "constructed": 20000, "constructed_accept": 5000, "parse_ok": 2000, "parse_judged_accept": 1500, "parse_judged_reject": 50000, "repo_ok": 2000, "repo_err": 5000,
 		"repo_other_path_rejected": 3000, "component_repo_ok": 5000, "component_digest_ok": 3000, "component_tag_ok": 500,
 		"op_mresolve": 500, "op_mfetchref": 500, "op_tag": 500, "op_pushref": 500, "op_bresolve": 500, "op_bfetchref": 500,
 		"op_sent": 3000, "op_refused": 3000, "op_ground_truth": 500,
@@ -522,6 +537,8 @@ func replay(path string) {
 			repoCase(registry.Reference{Registry: c["registry"], Repository: c["repository"], Reference: c["basereference"]}, c["input"])
 		case "V":
 			componentCase(c["kind"], c["input"])
+		case "G":
+			registryCase(c["input"])
 		case "F":
 			formatCase(registry.Reference{Registry: c["registry"], Repository: c["repository"], Reference: c["reference"]})
 		case "Q":
